@@ -135,23 +135,51 @@ fn derived(s: &SeqParameterSet, out: &mut Vec<String>) {
     ));
 }
 
+/// the NAL's RBSP bits once more over a reader that is interrupted before every refill (bitstream-io retries Interrupted)
+fn flaky_bits<'a>(nal: &'a RefNal<'a>) -> BitReader<h264_reader::rbsp::ByteReader<Flaky<h264_reader::nal::RefNalReader<'a>>>> {
+    BitReader::new(h264_reader::rbsp::ByteReader::skipping_h264_header(Flaky::new(nal.reader())))
+}
+
 fn cmd_sps(args: &[&str], out: &mut Vec<String>) {
     let src = Src::parse(args[0]);
-    match parse_sps(&src) {
+    let first = match parse_sps(&src) {
         Ok(s) => {
             out.push(format!("ok:{}", canon(&s)));
             derived(&s, out);
+            format!("ok:{}", canon(&s))
         }
-        Err(e) => out.push(format!("E:{}", spserr(&e))),
+        Err(e) => {
+            out.push(format!("E:{}", spserr(&e)));
+            format!("E:{}", spserr(&e))
+        }
+    };
+    if let Src::Nal { .. } = src {
+        let again = src.with_nal(|nal| match SeqParameterSet::from_bits(flaky_bits(&nal)) {
+            Ok(s) => format!("ok:{}", canon(&s)),
+            Err(e) => format!("E:{}", spserr(&e)),
+        });
+        if again != first {
+            out.push(format!("flaky=DIFF({})", again));
+        }
     }
 }
 
 fn cmd_pps(args: &[&str], out: &mut Vec<String>) {
     let ctx = build_ctx(args[0]);
     let src = Src::parse(args[1]);
-    match parse_pps(&ctx, &src) {
-        Ok(p) => out.push(format!("ok:{}", canon(&p))),
-        Err(e) => out.push(format!("E:{}", ppserr(&e))),
+    let first = match parse_pps(&ctx, &src) {
+        Ok(p) => format!("ok:{}", canon(&p)),
+        Err(e) => format!("E:{}", ppserr(&e)),
+    };
+    out.push(first.clone());
+    if let Src::Nal { .. } = src {
+        let again = src.with_nal(|nal| match PicParameterSet::from_bits(&ctx, flaky_bits(&nal)) {
+            Ok(p) => format!("ok:{}", canon(&p)),
+            Err(e) => format!("E:{}", ppserr(&e)),
+        });
+        if again != first {
+            out.push(format!("flaky=DIFF({})", again));
+        }
     }
 }
 
@@ -560,6 +588,31 @@ pub fn tables() {
                 if canon(&lv) != first {
                     println!("lvlx {} {} {} {}", ff, l, canon(&lv), first);
                 }
+            }
+        }
+    }
+    // ... and every pair followed by each of its neighbours at Hamming distance 1 and 2 in the 16-bit (flags, level) word
+    // (a memo keyed by too few bits answers the neighbour with the previous value)
+    let mut masks: Vec<u16> = Vec::new();
+    for i in 0..16 {
+        masks.push(1 << i);
+        for j in (i + 1)..16 {
+            masks.push((1 << i) | (1 << j));
+        }
+    }
+    for w in 0..=0xffffu16 {
+        let (f, l) = ((w >> 8) as u8, (w & 0xff) as u8);
+        if !(l == 9 || l == 11 || l >= 128 || l % 16 == 0 || f & 0x0f != 0 || w % 7 == 0) {
+            continue; // a seventh of the plain pairs, and all pairs with level 9, 11, >= 128, x0 or reserved flag bits
+        }
+        for m in &masks {
+            let w2 = w ^ m;
+            let (f2, l2) = ((w2 >> 8) as u8, (w2 & 0xff) as u8);
+            let _ = Level::from_constraint_flags_and_level_idc(ConstraintFlags::from(f), l);
+            let lv = Level::from_constraint_flags_and_level_idc(ConstraintFlags::from(f2), l2);
+            let first = first_sweep.get(&(f2, l2)).cloned().unwrap_or_default();
+            if canon(&lv) != first {
+                println!("lvlx {} {} {} {}", f2, l2, canon(&lv), first);
             }
         }
     }
